@@ -9,9 +9,9 @@ from .mir import MirSyntax
 from .arrays import sym_array, unpack_array
 from .natives import NATIVE_DOC, CRATE_CONTRACTS
 
-W = {'Int16': 16, 'Int32': 32, 'Int64': 64}
+W = {'Int16': 16, 'Int32': 32, 'Int64': 64, 'Date': 32}
 INTS = ['Int16', 'Int32', 'Int64']
-SQLT = {'Bool': 'BOOLEAN', 'Int16': 'SMALLINT', 'Int32': 'INT', 'Int64': 'BIGINT'}
+SQLT = {'Bool': 'BOOLEAN', 'Int16': 'SMALLINT', 'Int32': 'INT', 'Int64': 'BIGINT', 'Date': 'DATE'}
 OPS_IMPL = r'^array::ops::<impl at src/array/ops\.rs:\d+:\d+: \d+:\d+>::%s$'
 
 
@@ -119,7 +119,7 @@ def arms(thorough):
     out.append(('not', 'not', ('Bool',), lambda rows: spec_logic('not', rows) + (BoolVal(False),), lambda a: ['not', a]))
     cmps = {'eq': '=', 'ne': '<>', 'gt': '>', 'lt': '<', 'ge': '>=', 'le': '<='}
     for k, sym in cmps.items():
-        pairs = [('Bool', 'Bool')] + list(itertools.product(INTS, INTS))
+        pairs = [('Bool', 'Bool'), ('Date', 'Date')] + list(itertools.product(INTS, INTS))
         for ta, tb in pairs:
             out.append((k, k, (ta, tb), lambda rows, k=k, ta=ta, tb=tb: spec_cmp(k, ta, tb, rows) + (BoolVal(False),), lambda a, b, sym=sym: [sym, a, b]))
     ar = {'add': '+', 'sub': '-', 'mul': '*', 'div': '/', 'rem': '%'}
@@ -251,6 +251,8 @@ def replay(kname, tys, witness, expected, expr_fn, release=False):
     n = len([k for k in witness if k.startswith('a')])
     cols, exprs = [], []
     ci = 0
+    if 'Date' in ops:
+        return replay_dates(kname, ops, witness, expected, expr_fn, release)
     for i, t in enumerate(ops):
         ty = 'INT' if t == 'Bool' else SQLT[t]
         cols += ['%s_raw %s' % ('abc'[i], ty), '%s_nul %s' % ('abc'[i], ty)]
@@ -307,6 +309,39 @@ def replay(kname, tys, witness, expected, expr_fn, release=False):
             elif norm(e) != g:
                 rep = True
     return {'reproduced': rep, 'how': how}
+
+
+def replay_dates(kname, ops, witness, expected, expr_fn, release):
+    """DATE operands: the table holds date literals (NULL rows as NULL; the raw slot under a NULL cannot be set from SQL)."""
+    import datetime
+    n = len([k for k in witness if k.startswith('a')])
+    setup = ['create table r(%s)' % ', '.join('%s date' % 'abc'[i] for i in range(len(ops)))]
+    for j in range(n):
+        vals = []
+        for i in range(len(ops)):
+            w = witness['%s%d' % ('abc'[i], j)]
+            if not w['valid']:
+                vals.append('NULL')
+                continue
+            d = w['raw'] + 719163      # days since 1970-01-01 -> proleptic ordinal
+            if not (1 <= d <= 3652059):
+                return {'reproduced': None, 'how': {'note': 'date outside years 1..9999: no literal'}}
+            vals.append("date '%s'" % datetime.date.fromordinal(d).isoformat())
+        setup.append('insert into r values (%s)' % ', '.join(vals))
+    from relsmt.sexp import show
+    plan = show(['proj', ['list', expr_fn(*['$0.%d' % i for i in range(len(ops))])], ['scan', '$0', ['list'] + ['$0.%d' % i for i in range(len(ops))], 'true']])
+    out, rc, err = rl('planrun', {'setup': setup, 'plans': [plan]}, release=release)
+    res = [o for o in out if 'plan' in o]
+    how = {'setup': setup, 'plan': plan}
+    if not res:
+        return {'reproduced': None, 'how': how}
+    o = res[0]
+    got = 'PANIC' if o.get('panicked') else ('ERROR' if not o.get('ok') else [r[0] for r in o['rows']])
+    how['engine'], how['expected'] = got, expected
+    norm = lambda x: None if x is None else (str(x).lower() if isinstance(x, bool) else str(x))
+    if isinstance(got, str):
+        return {'reproduced': True, 'how': how}
+    return {'reproduced': any(e not in ('ERROR', 'NULL-or-ERROR') and norm(e) != g for g, e in zip(got, expected)), 'how': how}
 
 
 # ------------------------------------------------------------------------------------------------ main
